@@ -20,7 +20,37 @@ def _call(task):
         return guarded(_reraise)
 
 
+def contracts_part(ctx):
+    """P: step's input validation and trace hand-over (shared with C01), SimulationTrace.add_step /
+    add_fast_step for any number of traced names, Simulation.inspect, and the lemma over those contracts:
+    after a step inspect(n) == trace[n][-1] and every trace list is one entry longer."""
+    import time
+    import z3
+    import contracts.simulation   # noqa: F401
+    import contracts.trace as CT
+    from pyvc.contract import REGISTRY
+    from pyvc import run as prun
+    cs = [c for c in REGISTRY.values() if 'C15' in c.props and c.__class__.__module__ == 'contracts.trace']
+    prun.run_contracts(ctx, cs, 'contracts.trace')
+    cs = [c for c in REGISTRY.values() if c.__class__.__module__ == 'contracts.simulation' and
+          c.qualname == 'Simulation.step']
+    prun.run_contracts(ctx, cs, 'contracts.simulation')
+    for vc in CT.inspect_is_last_trace_entry():
+        s = z3.Solver()
+        s.set('timeout', 20000)
+        s.add(*vc.pc)
+        s.add(z3.Not(vc.goal))
+        t0 = time.time()
+        r = s.check()
+        ctx.obligation('C15.' + vc.name, 'contracts of Simulation.step (S6) + SimulationTrace.add_step + '
+                       'Simulation.inspect', 'proved' if r == z3.unsat else 'undecided', 'z3', time.time() - t0)
+    ctx.assume('trace storage model (contracts/trace.py): a mapping from pairwise distinct names to lists '
+               '(length + contents as arrays); `_wires` maps a name to its wire; list.append is the only '
+               'mutation; TraceStorage.__len__/__getitem__/iteration modelled as that mapping')
+
+
 def run(ctx):
+    contracts_part(ctx)
     fam = [d for d in designs.family(ctx.tier, ctx.seed)
            if d['name'] not in ('rand_design',) or d['params']['seed'] % 2 == 0]
     wide = [d for d in designs.wide_family(ctx.tier) if d['params'].get('w', 0) in (1, 64, 65, 130)
@@ -71,6 +101,8 @@ def run(ctx):
                           'illegal_mid_sequence': 'step_multiple with an illegal value at step 1, 2, 5, with/without expected_outputs, vs single stepping',
                           'illegal_inputs': 'bitwidths 1,4,63,64,65,130 x {0,2^bw-1,2^(bw-1),2^bw,2^bw+5,-1,-2^bw,2^(bw+64)}'}[fn],
                    sample=[t for t in tasks if t['fn'] == fn][0])
-    return ctx.finish('other', './check C15', ['CPython'],
-                      'bounded (level B): executable contracts on enumerated designs / inputs; '
-                      'deductive contracts on the validation code are future work in this round')
+    return ctx.finish('other', './check C15', ['z3', 'pyvc', 'CPython'],
+                      'P: Simulation.step input validation and trace hand-over, SimulationTrace.add_step / '
+                      'add_fast_step (any number of traced names), Simulation.inspect, lemma inspect == last '
+                      'trace entry; bounded (level B): executable contracts on enumerated designs / inputs for '
+                      'the three simulators, printers, step_multiple, assertions')
